@@ -45,6 +45,8 @@ func main() {
 	resultFile := flag.String("result", "", "write a machine-readable result file")
 	instrFile := flag.String("instr", "", "replay: source file of the package to instrument with yield points (e.g. msgbox.go)")
 	realHex := flag.Bool("realhex", false, "execute encoding/hex from its SSA instead of the length-only stub")
+	cclock := flag.Bool("concreteclock", false, "time.Now returns concrete realistic instants (1.7e9 s + 1000 s per vndAdvanceClock) instead of symbolic ones")
+	acq := flag.Bool("acqonly", false, "preemption points only before acquire-type operations (Lock/RLock, channel operations); releases are left-movers, so for data-race-free code no schedule is lost")
 	det := flag.Bool("det", false, "deterministic choice of the next goroutine when the current one blocks (canonical schedule)")
 	expect := flag.String("expect", "", "assert id (or panic) expected in replay")
 	tapeDir := flag.String("tapes", "", "directory to write violation tapes to")
@@ -176,7 +178,7 @@ func main() {
 	}
 	load := time.Since(t0)
 	e := &Engine{prog: prog, pkg: pkg, sol: NewSolver(*z3), violations: map[string]*Violation{}, vcount: map[string]int{}, covers: map[string]int{},
-		funcs: map[string]bool{}, incomplete: map[string]int{}, ends: map[string]int{}, loopBound: *loop, maxPaths: *maxPaths, preemptBound: *pre, noinit: *noinit, detSched: *det, mapOrder: *mapOrder, redirects: map[string]string{}, vtraces: map[string][]string{}, coverModels: map[string]*Violation{}, raceOn: *raceOn, realHex: *realHex, asn1Havoc: *havoc, debugDeadlock: os.Getenv("SYMGO_DEBUG_DEADLOCK") != ""}
+		funcs: map[string]bool{}, incomplete: map[string]int{}, ends: map[string]int{}, loopBound: *loop, maxPaths: *maxPaths, preemptBound: *pre, noinit: *noinit, detSched: *det, mapOrder: *mapOrder, redirects: map[string]string{}, vtraces: map[string][]string{}, coverModels: map[string]*Violation{}, raceOn: *raceOn, realHex: *realHex, asn1Havoc: *havoc, concreteClock: *cclock, acqOnly: *acq, debugDeadlock: os.Getenv("SYMGO_DEBUG_DEADLOCK") != ""}
 	if *shard != "" {
 		fmt.Sscanf(*shard, "%d/%d/%d", &e.shard, &e.shardN, &e.shardDepth)
 	}
